@@ -199,7 +199,7 @@ def ma_cases(tier, part):
             for opts in itertools.product(MA_OPTS, repeat=nfiles):
                 pre = [((("autoescape", o[1]),) if o and o[0] == "pre" else ()) for o in opts]
                 post = [((("autoescape", o[1]),) if o and o[0] == "post" else ()) for o in opts]
-                for lkw in MA_LOADER:
+                for lkw in (MA_LOADER[:2] if tier == "quick" else MA_LOADER):
                     w = T.m_world(names, exts, bodies, ("html",) * nfiles, lkw, pre, post)
                     yield number_markers(w)
 
